@@ -37,7 +37,7 @@ BOUNDS_TEXT = ("boxes: 5 shapes (1 box x 1 pair, 1 x 2, 2 x 1 with the same key,
                "from a menu of 3 concrete keys by symbolic index, values of 0..3 symbolic bytes (limit scaled to "
                "3), every split index of the stream (two deliveries); unrepresentable boxes: empty key, key of 3 "
                "> 2, value of 4 > 3, str key, str value, next to a representable pair; received length prefixes "
-               "0..5 / 256.. at key and value position; Integer: every |n| < int; Boolean: both values and every "
+               "0..5 / 256.. at first-key, value and second-key position; Integer: every |n| < int; Boolean: both values and every "
                "text of <= 5 bytes; String/Unicode: <= u ASCII characters; ListOf(Integer) and ListOf(String) of "
                "<= 2 elements; AmpList of <= 2 dictionaries (Integer, Unicode)")
 OUTSIDE = ["Float, Decimal, DateTime, Path argument types (C-level float/decimal/strptime/filesystem parsing is "
@@ -297,21 +297,24 @@ def refuse(kind: int, ki: int, v1: str, first: bool) -> bool:
     return tr.out == ["\0" + chr(len(k1)) + k1 + "\0" + chr(len(v1)) + v1 + "\0\0"]
 
 
-def recv_limits(n: int, hi: bool, isval: bool, fill: str, split: int) -> bool:
+def recv_limits(n: int, hi: bool, pos: int, fill: str, split: int) -> bool:
     """
-    pre: 0 <= n <= 5 and len(fill) == 5 and all(ord(c) < 256 for c in fill)
+    pre: 0 <= n <= 5 and 0 <= pos <= 2 and len(fill) == 5 and all(ord(c) < 256 for c in fill)
     pre: 0 <= split
     post: _
     """
     # receive side: a key length prefix above 2 / a value length prefix above 3 (scaled limits) stops
-    # the parser and closes the transport before any of the announced bytes are interpreted
+    # the parser and closes the transport before any of the announced bytes are interpreted.
+    # pos 0: first key of a box; pos 1: value; pos 2: second key (after a complete pair)
     k = _split_cases(5, n)
     length = k + (256 if hi else 0)
     p, r, rtr = _proto()
     # the announced bytes: symbolic at value position; concrete at key position (a received key becomes a
     # dict key, which would realise symbolic text)
+    isval = pos == 1
     body = fill[:k] if isval else "kxyzw"[:k]
-    stream = ("\0\1a" if isval else "") + ("\1" if hi else "\0") + chr(k) + body + "\0\0\0\0"
+    lead = ["", "\0\1a", "\0\1a\0\1v"][_split_cases(2, pos)]
+    stream = lead + ("\1" if hi else "\0") + chr(k) + body + "\0\0\0\0"
     sp = _split_cases(len(stream), split)
     _deliver(p, stream, sp)
     cover()
@@ -321,8 +324,12 @@ def recv_limits(n: int, hi: bool, isval: bool, fill: str, split: int) -> bool:
     if rtr.lost != 0:
         return False
     got = [_items(x) for x in r.boxes]
-    if isval:
+    if pos == 1:
         return got == [[("a", body)], []]
+    if pos == 2:
+        if k == 0:
+            return got == [[("a", "v")], [], []]
+        return got == [sorted([("a", "v"), (body, "")])]
     if k == 0:
         return got == [[], [], []]
     return got == [[(body, "")]]
@@ -469,7 +476,7 @@ HARNESSES = [
       timeout={"quick": 60, "thorough": 600}),
     H(partial_box, timeout={"quick": 60, "thorough": 300}),
     H(refuse, shards=[("kind == %d" % k,) for k in range(5)], timeout={"quick": 60, "thorough": 300}),
-    H(recv_limits, shards=[("isval == True",), ("isval == False",)], timeout={"quick": 60, "thorough": 300}),
+    H(recv_limits, shards=[("pos == %d" % i,) for i in range(3)], timeout={"quick": 60, "thorough": 300}),
     H(arg_integer, shards=[("n >= 0",), ("n < 0",)], timeout={"quick": 60, "thorough": 600}),
     H(arg_boolean, timeout={"quick": 60, "thorough": 300}),
     H(arg_text, timeout={"quick": 60, "thorough": 300}),
@@ -483,9 +490,10 @@ VECTORS = {
     "partial_box": [(0, "abc", 0), (1, "", 4), (2, "\x00\x00", 11)],
     "refuse": [(0, 0, "x", True), (1, 1, "abc", True), (1, 1, "abc", False), (2, 2, "", False), (2, 0, "abc", True),
                (3, 0, "q", True), (3, 0, "q", False), (4, 1, "\xff", True), (0, 2, "", False)],
-    "recv_limits": [(0, False, False, "abcde", 0), (2, False, False, "abcde", 3), (3, False, False, "abcde", 1),
-                    (3, False, True, "abcde", 6), (4, False, True, "abcde", 2), (0, True, False, "abcde", 0),
-                    (1, True, True, "abcde", 4), (5, False, False, "\x00\x01\x02\x03\x04", 9)],
+    "recv_limits": [(0, False, 0, "abcde", 0), (2, False, 0, "abcde", 3), (3, False, 0, "abcde", 1),
+                    (3, False, 1, "abcde", 6), (4, False, 1, "abcde", 2), (0, True, 0, "abcde", 0),
+                    (1, True, 1, "abcde", 4), (5, False, 0, "\x00\x01\x02\x03\x04", 9), (2, False, 2, "abcde", 7),
+                    (3, False, 2, "abcde", 12), (0, False, 2, "abcde", 5)],
     "arg_integer": [(0,), (7,), (-1,), (10,), (999999,), (-999999,), (123456,), (-100,)],
     "arg_boolean": [(True, "True"), (False, "False"), (True, "true"), (False, ""), (True, "Falsf"), (False, "1")],
     "arg_text": [("",), ("abc",), ("\x00\x7f",)],
